@@ -1,6 +1,7 @@
 (** Property C12 -- the result is independent of how the input is chunked.
     Only pinned statements, closed by [exact], with their assumptions printed. *)
 From Avt Require Import Oracles.Rel Proofs.Inv Proofs.ParamDT Proofs.ParamChop Proofs.ChunkSessions.
+From Avt Require Import Gen.VtFns Proofs.VtTie.
 
 (** Unlimited scrollback: feeding s1 ++ s2 in one call, or s1 and then s2 in two calls (cut anywhere, also inside an escape sequence), from any state satisfying the invariant whose parked buffer has the current geometry, ends in states with equal parsers, equal visible screens, cursors, modes, and equal lines() - on the primary and on the alternate screen, RIS allowed. (By induction any chunking; limited scrollback: see C12_dirty_trim_irrelevant and DESIGN.md.) *)
 Theorem C12_chunks : forall v s1 s2 va oa v1 o1 vb ob, TInv (vterm v) -> parked_ok (vterm v) -> sb_limit (vterm v) = None -> feed_str v (s1 ++ s2) = Ok (va, oa) -> feed_str v s1 = Ok (v1, o1) -> feed_str v1 s2 = Ok (vb, ob) -> holds_C12 va vb = true.
@@ -46,3 +47,15 @@ Theorem C12_sessions_unlimited : forall c r ss1 ss2 v1 o1 v2 o2, concat ss1 = co
 Proof. exact C12_sessions_unlimited. Qed.
 Check C12_sessions_unlimited : forall c r ss1 ss2 v1 o1 v2 o2, concat ss1 = concat ss2 -> run_session (vt_new c r None) ss1 = Ok (v1, o1) -> run_session (vt_new c r None) ss2 = Ok (v2, o2) -> holds_C12 v1 v2 = true.
 Print Assumptions C12_sessions_unlimited.
+
+(** SOURCE TIE BY PROOF: the call skeleton of Vt::feed_str (for each char: parser.feed, execute if a function is returned; then changes(); then gc()) is regenerated from src/vt.rs and the model's feed_str is proved to be its interpretation *)
+Theorem C12_source_feed_str : forall v s, feed_str v s = interp_skel g_feed_str_each (AStr s) g_feed_str_skel v.
+Proof. exact tie_feed_str. Qed.
+Check C12_source_feed_str : forall v s, feed_str v s = interp_skel g_feed_str_each (AStr s) g_feed_str_skel v.
+Print Assumptions C12_source_feed_str.
+
+(** Vt::feed is one step of it, with no end-of-call work *)
+Theorem C12_source_feed : forall v c, stepM v (Feed c) = interp_skel g_feed_str_each (AChar c) g_feed_skel v.
+Proof. exact tie_feed. Qed.
+Check C12_source_feed : forall v c, stepM v (Feed c) = interp_skel g_feed_str_each (AChar c) g_feed_skel v.
+Print Assumptions C12_source_feed.
